@@ -652,7 +652,7 @@ func c13Reweight(c *Ctx, a *sketchAnchors) {
 		return
 	}
 	dom := mkDomain(paramScalar("w", 1, 2, constPoints("0", "1")))
-	paths, _ := exec(c, f, dom, 1)
+	paths, _ := exec(c, f, dom, 3) // bound 3: a loop over a literal slice of the two stores is unrolled
 	for wc := 1; wc <= 5; wc++ {
 		sel := pathsInClass(paths, "w", wc)
 		key := fmt.Sprintf("%s/w%s", shortFn(f), className(wPoints, wc))
